@@ -475,6 +475,7 @@ class EndpointResponseHandlerGenerator:
                             type_service = UnifiedTypeService(self.schemas)
                             response_type = type_service.resolve_schema_type(resp_schema, context)
                             if self._should_use_cattrs_structure(response_type):
+                                self._register_cattrs_import(context)
                                 deserialization_code = self._get_cattrs_deserialization_code(response_type, data_expr)
                                 writer.write_line(f"return {deserialization_code}")
                                 self._register_imports_for_type(response_type, context)
@@ -624,6 +625,7 @@ class EndpointResponseHandlerGenerator:
         writer.indent()
         if self._should_use_cattrs_structure(first_type):
             context.add_typing_imports_for_type(first_type)
+            self._register_cattrs_import(context)
             deserialization_code = self._get_cattrs_deserialization_code(first_type, data_expr)
             writer.write_line(f"return {deserialization_code}")
         else:
@@ -641,6 +643,7 @@ class EndpointResponseHandlerGenerator:
             writer.indent()
             if self._should_use_cattrs_structure(type_name):
                 context.add_typing_imports_for_type(type_name)
+                self._register_cattrs_import(context)
                 deserialization_code = self._get_cattrs_deserialization_code(type_name, data_expr)
                 if is_last:
                     writer.write_line(f"return {deserialization_code}")
@@ -704,6 +707,7 @@ class EndpointResponseHandlerGenerator:
             elif self._should_use_cattrs_structure(python_type):
                 # Complex type - use cattrs deserialization
                 context.add_typing_imports_for_type(python_type)
+                self._register_cattrs_import(context)
                 deserialization_code = self._get_cattrs_deserialization_code(python_type, "response.json()")
                 writer.write_line(f"return {deserialization_code}")
             else:
